@@ -62,6 +62,13 @@ fn apply_step(t: &mut AffTree<2>, st: &Value) -> (Value, Value, Value) {
         }
         "apply_func" => { t.apply_func(&aff_from(&st["aff"])); (none(), none(), none()) }
         "reduce" => { t.reduce(); (none(), none(), none()) }
+        "replace_node" => {
+            // target: the first non-root node in index order
+            let root = t.tree.get_root_idx();
+            let target = t.tree.node_indices().find(|i| *i != root).expect("replace_node needs a non-root node");
+            let new_idx = t.replace_node(target, aff_from(&st["aff"])).expect("replace_node");
+            (none(), none(), json!({"target": target, "new": new_idx}))
+        }
         "neg" => { let x = std::mem::replace(t, AffTree::<2>::new(1)); *t = x.neg(); (none(), none(), none()) }
         "add" | "sub" | "mul" | "div" => {
             let mut r: AffTree<2> = build(st["rhs"].as_array().unwrap());
